@@ -114,9 +114,11 @@ def render(st, n, opts=None):
                         plist = [("p", tok), ("q", "w")][:cnt]
                         ptxt = "".join(' (property %s (string "%s"))' %
                                        ((decl(k) if j == 0 else k), v) for j, (k, v) in enumerate(plist))
-                    w("          (instance %s (viewRef netlist (cellRef %s (libraryRef %s)))%s)" %
+                    # with comments on: an EMPTY comment construct ahead of the properties, a non-empty one after them
+                    w("          (instance %s (viewRef netlist (cellRef %s (libraryRef %s)))%s%s%s)" %
                       (decl(st["instData"][i - 1]["name"]), ref(st["defData"][r - 1]["name"]),
-                       ref(st["libData"][st["defLib"][r - 1] - 1]["name"]), ptxt))
+                       ref(st["libData"][st["defLib"][r - 1] - 1]["name"]),
+                       " (comment)" if comments else "", ptxt, ' (comment "an instance")' if comments else ""))
                 for c in cabs:
                     a = st["cabAttr"][c - 1]
                     cname = st["cabData"][c - 1]["name"]
